@@ -692,6 +692,51 @@ def run(chk):
                        key="paddingcounted|%d" % ncmp)
     chk.floor(RP + ":comparisons", ncmp, 1)
 
+    # ---------------------------------------------------------------- the internal shrink never sees a zero size
+    RZ = "R-SHRINK-NONZERO"
+    chk.rule(RZ, "every call of JitAllocatorImpl_shrink(impl, span, new_size, ...) is reached only on the edge where the value passed as new_size "
+                 "was tested to be non-zero (shrinking to nothing is a release and is handled by the callers): the internal shrink marks "
+                 "`[start + new_area, end)` as free and would clear the whole span while keeping it counted")
+    fz = chk.facts(UNIT, funcs=r"asmjit::JitAllocator::[a-z_]+$")
+    nz = 0
+    for gz in cfg.load_functions(fz):
+        callsz = [(i, x) for i, x in gz.calls(lambda x: x.get("cn") == "JitAllocatorImpl_shrink" and len(x.get("args", [])) >= 3)]
+        if not callsz:
+            continue
+
+        def z_edge(b, si, atom, holds, gz=gz):
+            x = gz.e(atom)
+            if x is None:
+                return ()
+            if x["k"] == "binop" and x["op"] in ("==", "!="):
+                l, r = gz.e(gz.strip(x["lhs"])), gz.e(gz.strip(x["rhs"]))
+                for u, v in ((l, r), (r, l)):
+                    if u is not None and v is not None and u["k"] == "ref" and v.get("cv") == 0 and (x["op"] == "!=") == holds:
+                        return [("nonzero", u.get("did"))]
+            if x["k"] == "ref" and holds:
+                return [("nonzero", x.get("did"))]
+            return ()
+
+        def z_elem(eid, x, gz=gz):
+            # anything that may change the variable: assignment, or being passed by reference (std::swap)
+            kills = ()
+            if x["k"] == "binop" and x["op"].endswith("=") and x["op"] not in ("==", "!=", "<=", ">="):
+                l = gz.e(gz.strip(x["lhs"]))
+                if l is not None and l["k"] == "ref":
+                    kills = (("nonzero", l.get("did")),)
+            elif x["k"] == "call" and x.get("cn") == "swap":
+                kills = tuple(("nonzero", (gz.e(gz.strip(a)) or {}).get("did")) for a in x.get("args", []))
+            return ((), kills) if kills else None
+        mz = Must(gz, z_elem, z_edge)
+        for i, x in callsz:
+            a = gz.e(gz.strip(x["args"][2]))
+            nz += 1
+            ok = a is not None and a["k"] == "ref" and ("nonzero", a.get("did")) in (mz.before(i) or frozenset())
+            chk.ob(RZ, "%s|JitAllocatorImpl_shrink" % gz.name.replace("asmjit::", ""), ok, loc=gz.loc(i),
+                   detail="JitAllocatorImpl_shrink() can be called with a new size of zero here (e.g. a write() callback that truncates the span to "
+                          "nothing): the span's bits are cleared but it stays counted and cannot be released", key="shrinknonzero|%s" % gz.name.replace("asmjit::", ""))
+    chk.floor(RZ + ":calls", nz, 2)
+
     from lib import failpure
     failpure.run_wrapping_bounds(chk, [("asmjit/core/jitallocator.cpp", r"asmjit::JitAllocator[A-Za-z_0-9:]*$"), ("asmjit/core/virtmem.cpp", r"asmjit::VirtMem::[A-Za-z_0-9]+$"),
                                        ("asmjit/core/codeholder.cpp", r"asmjit::CodeHolder::(copy_section_data|copy_flattened_data|reserve_buffer|grow_buffer)$")],
